@@ -51,6 +51,16 @@ def _impl(tier, seed, search):
         L.close('q-conj-q', b.qqmul(a, b.conj(a)), np.r_[np.dot(a, a), 0, 0, 0], 1e-9, sa * sa, inp)
         L.close('matrix-form', b.matrix(a) @ c, b.qqmul(a, c), 1e-9, sa * sc, inp)
         L.close('inner', b.inner(a, c), float(np.dot(a, c)), 1e-9, sa * sc, inp)
+        # inner product of sequences: N x N gives the N element-wise values, 1 x N / N x 1 broadcast, unequal lengths raise
+        if i % 5 == 0:
+            Nq = int(g.integers(2, 5)); qa_ = [g.normal(size=4) for _ in range(Nq)]; qb_ = [g.normal(size=4) for _ in range(Nq)]
+            ok, r = L.noraise('inner(NxN)', lambda: (np.atleast_1d(np.asarray(Quaternion(qa_).inner(Quaternion(qb_)), float)), np.atleast_1d(np.asarray(Quaternion(qa_).inner(Quaternion(qa_)), float))), dict(N=Nq), 'Quaternion.inner on sequences')
+            if ok:
+                L.check('inner(NxN):shape', r[0].shape == (Nq,), dict(N=Nq), f'inner of two {Nq}-valued quaternions has shape {r[0].shape}', sig='inner:multi')
+                if r[0].shape == (Nq,):
+                    L.close('inner(NxN)', r[0], [float(np.dot(x_, y_)) for x_, y_ in zip(qa_, qb_)], 1e-9, 16.0, dict(N=Nq), sig='inner:multi')
+                    if r[1].shape == (Nq,): L.close('inner(A,A)=|A|^2', r[1], [float(np.dot(x_, x_)) for x_ in qa_], 1e-9, 16.0, dict(N=Nq), sig='inner:multi')
+            L.raises('inner(NxM)', lambda: Quaternion(qa_).inner(Quaternion(qb_ + [g.normal(size=4)])), dict(N=Nq), 'inner of sequences of unequal length must raise', sig='inner:multi')
         # … through the classes too, unit quaternions on either hemisphere included (the inner product is signed)
         u1_, u2_ = inputs.unitq(g), inputs.unitq(g)
         for x1_, x2_ in ((u1_, u2_), (u1_, -u2_), (u1_, -u1_)):
@@ -162,6 +172,14 @@ def _impl(tier, seed, search):
                 L.close('udq*dq:matrix', r[0], r[1], 1e-9, sc_, dict(inp, X=Xa.A), what='(U*G).vec differs from U.matrix() @ G.vec for a unit dual quaternion U and a general G', sig='udq*dq')
                 L.close('dq*udq:matrix', r[2], r[3], 1e-9, sc_, dict(inp, X=Xa.A), sig='udq*dq')
                 L.close('udq*dq:assoc', r[4], r[5], 1e-9, max(1.0, float(np.max(np.abs(r[5])))), dict(inp, X=Xa.A), sig='udq*dq')
+            # conjugate of a unit dual quaternion (with translation): component-wise conjugates, A conj(A) = (1, 0), conj reverses products
+            def udq_conj():
+                return (Ud.conj().vec, np.r_[b.conj(Ud.real.vec), b.conj(Ud.dual.vec)], (Ud * Ud.conj()).vec, (Ud * Gd).conj().vec, (Gd.conj() * Ud.conj()).vec)
+            ok, r = L.noraise('udq-conj', udq_conj, dict(X=Xa.A), 'UnitDualQuaternion.conj')
+            if ok:
+                L.close('udq-conj', r[0], r[1], 1e-12, max(1.0, float(np.max(np.abs(r[1])))), dict(X=Xa.A), what='conj of a unit dual quaternion is not (conj real, conj dual)', sig='udq-conj')
+                L.close('udq*conj', r[2], np.r_[1.0, 0, 0, 0, 0, 0, 0, 0], 1e-9, max(1.0, float(np.max(np.abs(Ud.vec)))) ** 2, dict(X=Xa.A), what='A * conj(A) is not (1, 0) for a unit dual quaternion', sig='udq-conj')
+                L.close('conj(U*G)', r[3], r[4], 1e-9, max(1.0, float(np.max(np.abs(r[4])))), dict(X=Xa.A), sig='udq-conj')
             T = inputs.se3(g, 3)
             def udq_norm():
                 d_ = UnitDualQuaternion(SE3(T, check=False))
